@@ -229,6 +229,27 @@ pub fn check(s: &'static dyn Proto, c: &Case, st: &mut Stats, _k: &KnownFindings
             cands.push((format!("multi:{}:{name}", f.name), x));
         }
     }
+    // (5) reflection: the client's own request values (of this and of another session) played
+    // back in the corresponding response fields (anchor: reflected-value check + transcript MAC)
+    for (rname, rq) in [("own", &req), ("other-session", &req2)] {
+        let q = s.ser(Codec::Native, rq);
+        ensure_eq!(q.len(), m.len_of(Ty::CredReq), "request length");
+        let pairs = [
+            ("evaluation_element", "blinded_element"),
+            ("server_nonce", "client_nonce"),
+            ("server_e_pk", "client_e_pk"),
+        ];
+        for mask in 1u32..(1 << pairs.len()) {
+            let mut x = r.clone();
+            for (i, (to, from)) in pairs.iter().enumerate() {
+                if mask & (1 << i) != 0 {
+                    let f = fieldmap::field(&m, Ty::CredResp, to);
+                    x = fieldmap::splice(&x, &f, fieldmap::slice(&m, Ty::CredReq, from, &q));
+                }
+            }
+            cands.push((format!("reflect:{rname}:mask={mask:03b}"), x));
+        }
+    }
     // dedupe; drop anything byte-equal to a genuine answer
     let mut seen: HashSet<Vec<u8>> = HashSet::new();
     seen.insert(r.clone());
